@@ -286,24 +286,18 @@ def probe_pairs(c, d):
 def run(report, tier):
     E.setup_report(report, "C02")
     backends = ["f64", "dec"]
-    frontend.dump_repo_parallel(backends)
+    keys = E.dump_worlds(backends)
     pool = mpool.Pool()
     try:
-        desc = {be: pool.describe(be) for be in backends}
-        tasks = []
-        for be in backends:
-            d = desc[be]
-            for q in d["qty"]:
-                if d["has_ref"][q]:
-                    for ua in d["units"][q]:
-                        tasks.append((be, q, ua, 2 if tier == "quick" else 8))
+        desc = E.describe_worlds(pool, keys)
+        tasks = [(k, q, u, 2 if tier == "quick" else 8) for k, q, u in E.ref_tasks(keys, desc)]
         E.shuffle(tasks)
         report.bounds.update(E.bounds_box1())
         report.bounds["symmetry"] = "all non-NaN amounts (T_uf with totality of the amount order; T_fp bit-precise re-decision of candidates)"
         report.bounds["tolerance"] = "f64: |A-B| > 4u(|A|+|B|); decimal: |A-B| > 4e-18 (1+sa+sb)(1+|a|+|b|)"
         cands = pool.run(report, task, tasks)
+        pool.cross_check(report)
         E.native_confirm(report, "C02", cands, desc, oracle, probes=probe_pairs)
-        if tier == "thorough":
-            E.translator_validation(report, pool, desc, ops=("eq", "lt"))
+        E.translator_validation(report, pool, desc, ops=("eq", "lt"), full=(tier == "thorough"))
     finally:
         pool.close()
